@@ -201,6 +201,37 @@ pub fn search(seed: u64, n: u64) {
         stats.case(&format!("{} {:?}", kind, path), true);
         check_path(&mut stats, &mut rng_b, &path, kind, 8000);
     }
+    // boxes with one or two sides replaced by TALL parabolic arches (quadratics raised to cubics: exactly, on coordinates that are
+    // multiples of 3, and in floating point): the arch is the extreme of the outline in its direction, so the bounding box the function
+    // starts with depends on the extremity of an edge whose cubic coefficient is zero or rounding-sized (own stream; from seeded change C07-m9)
+    let mut rng_a = Rng(seed ^ 0xA2C407);
+    for k in 0..(6 + n / 20) {
+        let exact = k % 2 == 0;
+        let g = |rng: &mut Rng, lo: f64, hi: f64| if exact { (rng.r(lo, hi) / 3.0).round() * 3.0 } else { rng.r(lo, hi) };
+        let (x0, y0) = (g(&mut rng_a, 10.0, 40.0), g(&mut rng_a, 10.0, 40.0));
+        let (x1, y1) = (x0 + g(&mut rng_a, 12.0, 45.0), y0 + g(&mut rng_a, 12.0, 45.0));
+        let corners = [Coord2(x0, y0), Coord2(x0, y1), Coord2(x1, y1), Coord2(x1, y0)];
+        let arched = [k % 4 < 2, true, k % 3 == 0, k % 5 == 0];
+        let mut secs = vec![];
+        for i in 0..4 {
+            let (p, q) = (corners[i], corners[(i + 1) % 4]);
+            let d = q - p;
+            if arched[i] {
+                // outward normal of a clockwise-in-y-up walk (x0,y0) -> (x0,y1) -> (x1,y1) -> (x1,y0)
+                let out = Coord2(-d.1, d.0) * (1.0 / (d.0 * d.0 + d.1 * d.1).sqrt());
+                let h = g(&mut rng_a, 6.0, 30.0);
+                let m = p + d * 0.5 + out * h;
+                secs.push((p + (m - p) * (2.0 / 3.0), q + (m - q) * (2.0 / 3.0), q));
+            } else {
+                secs.push((p + d * (1.0 / 3.0), p + d * (2.0 / 3.0), q));
+            }
+        }
+        let path: P = redirect(&mut rng_a, &(corners[0], secs));
+        let kind = if exact { "parabolic_arch_exact" } else { "parabolic_arch" };
+        stats.count(&format!("kind.{}", kind));
+        stats.case(&format!("{} {:?}", kind, path), true);
+        check_path(&mut stats, &mut rng_a, &path, kind, 400);
+    }
     // long thin triangles with a vertex 0.3 .. 1 from the box's max corner: the ray crosses the long edge at 0.01 .. 0.06 degrees (shallow but
     // transversal), 0.1 clear of every vertex
     for _ in 0..(4 + n / 200) {
